@@ -2,7 +2,7 @@
     All statements are about the generated definitions [LV.Gen.Gen_bit_reversal]. *)
 
 Require Import ZArith Lia Bool List.
-Require Import LV.Base.CInt LV.Proofs.C25_Bits LV.Gen.Gen_bit_reversal.
+Require Import LV.Base.CInt LV.Proofs.C25_Bits LV.Proofs.C25_Rev64Bytes LV.Gen.Gen_bit_reversal.
 Local Open Scope Z_scope.
 
 (** ** SWAR stages *)
@@ -173,24 +173,8 @@ Proof.
   - enum_index 32%nat ltac:(bit_case).
 Qed.
 
-Lemma rev64_bytes_md x :
-  0 <= x < 2 ^ 64 ->
-  Z.lor (Z.lor (Z.lor (Z.lor (Z.lor (Z.lor (Z.lor
-     (rev 8 (Z.shiftr x 56 mod 2 ^ 8))
-     (Z.shiftl (rev 8 (Z.shiftr x 48 mod 2 ^ 8)) 8 mod 2 ^ 64))
-     (Z.shiftl (rev 8 (Z.shiftr x 40 mod 2 ^ 8)) 16 mod 2 ^ 64))
-     (Z.shiftl (rev 8 (Z.shiftr x 32 mod 2 ^ 8)) 24 mod 2 ^ 64))
-     (Z.shiftl (rev 8 (Z.shiftr x 24 mod 2 ^ 8)) 32 mod 2 ^ 64))
-     (Z.shiftl (rev 8 (Z.shiftr x 16 mod 2 ^ 8)) 40 mod 2 ^ 64))
-     (Z.shiftl (rev 8 (Z.shiftr x 8 mod 2 ^ 8)) 48 mod 2 ^ 64))
-     (Z.shiftl (rev 8 (x mod 2 ^ 8)) 56 mod 2 ^ 64) = rev 64 x.
-Proof.
-  intros Hx. apply rev_unique; [lia| |].
-  - pose proof (rev_range 8 (Z.shiftr x 56 mod 2 ^ 8) ltac:(lia)).
-    assert (2 ^ 8 < 2 ^ 64) by reflexivity.
-    repeat apply lor_range; try (apply mod_range; lia); lia.
-  - enum_index 64%nat ltac:(bit_case).
-Qed.
+(* [rev64_bytes_md] (64 bit positions x 8 bytes, the slowest enumeration) lives in LV.Proofs.C25_Rev64Bytes so that it
+   compiles in parallel with this file. *)
 
 Ltac md_run spec :=
   repeat first [ monad_step
